@@ -338,14 +338,96 @@ func (s *Scope) String() string {
 
 	fmt.Fprintln(b, "values: {")
 	for k, v := range s.values {
-		fmt.Fprintln(b, "\t", k, "=>", v)
+		fmt.Fprintln(b, "\t", k, "=>", printable(k.t, v))
 	}
 	for k, vs := range s.groups {
 		for _, v := range vs {
-			fmt.Fprintln(b, "\t", k, "=>", v)
+			fmt.Fprintln(b, "\t", k, "=>", printable(k.t, v))
 		}
 	}
 	fmt.Fprintln(b, "}")
 
 	return b.String()
+}
+
+// printable returns what String prints for a value of type t held by the
+// container. fmt follows maps, slices, arrays, structs, interfaces and a
+// top-level pointer without looking for cycles: a value that contains itself
+// would overflow the stack, so it is described by its type only.
+func printable(t reflect.Type, v reflect.Value) interface{} {
+	if containsItself(v, 0, make(map[visitedRef]bool)) {
+		return fmt.Sprintf("(%v that contains itself)", t)
+	}
+	return v
+}
+
+type visitedRef struct {
+	ptr uintptr
+	len int
+	t   reflect.Type
+}
+
+// containsItself reports whether printing v with %v would come back to a map,
+// slice or pointer it is already printing. onPath holds those being printed;
+// an entry set to false was printed completely and is not followed again.
+func containsItself(v reflect.Value, depth int, onPath map[visitedRef]bool) bool {
+	var (
+		ref     visitedRef
+		tracked bool
+	)
+	switch v.Kind() {
+	case reflect.Interface:
+		return !v.IsNil() && containsItself(v.Elem(), depth+1, onPath)
+	case reflect.Ptr:
+		// fmt prints pointers as addresses, except at the top level.
+		if depth > 0 || v.IsNil() {
+			return false
+		}
+		ref, tracked = visitedRef{ptr: v.Pointer(), t: v.Type()}, true
+	case reflect.Map:
+		if v.IsNil() {
+			return false
+		}
+		ref, tracked = visitedRef{ptr: v.Pointer(), t: v.Type()}, true
+	case reflect.Slice:
+		if v.Len() == 0 {
+			return false
+		}
+		ref, tracked = visitedRef{ptr: v.Pointer(), len: v.Len(), t: v.Type()}, true
+	case reflect.Array, reflect.Struct:
+		// Part of whatever holds them: nothing to remember.
+	default:
+		return false
+	}
+	if tracked {
+		if active, seen := onPath[ref]; seen {
+			return active
+		}
+		onPath[ref] = true
+		defer func() { onPath[ref] = false }()
+	}
+
+	switch v.Kind() {
+	case reflect.Ptr:
+		return containsItself(v.Elem(), depth+1, onPath)
+	case reflect.Map:
+		for it := v.MapRange(); it.Next(); {
+			if containsItself(it.Key(), depth+1, onPath) || containsItself(it.Value(), depth+1, onPath) {
+				return true
+			}
+		}
+	case reflect.Slice, reflect.Array:
+		for i := 0; i < v.Len(); i++ {
+			if containsItself(v.Index(i), depth+1, onPath) {
+				return true
+			}
+		}
+	case reflect.Struct:
+		for i := 0; i < v.NumField(); i++ {
+			if containsItself(v.Field(i), depth+1, onPath) {
+				return true
+			}
+		}
+	}
+	return false
 }
